@@ -92,8 +92,31 @@ package ring
 //@   ensures  in == nil ==> r2 != nil && r0 == nil
 //@   ensures  in != nil && istype(in, "*Desc") && astype(in, "*Desc") != nil ==> r2 == nil && !in(i.ID, ringDesc.Ingesters) && sameIngestersExcept(ringDesc.Ingesters, astype(in, "*Desc").Ingesters, i.ID)
 //@
+//@ # hasTok(s, t): t occurs in s. The generator interface promises tokens that do not occur in the list it is handed
+//@ # (proved for the random generator and the spread-minimising filter under C16; assumed here for the interface).
+//@ opaque pred hasTok(s []uint32, t uint32) = exists a int :: 0 <= a && a < len(s) && s[a] == t
+//@ assume func TokenGenerator.GenerateTokens
+//@   ensures forall j int :: 0 <= j && j < len(result) ==> !hasTok(allTakenTokens, result[j])
+//@
+//@ # auto-join: the tokens added to the own entry are exactly those the generator returned in THIS invocation of the
+//@ # callback, for the list of tokens taken in the ring version this invocation was handed (a CAS retry re-chooses)
 //@ func Lifecycler.autoJoin$1
 //@   property C08 C09
+//@   ghost var genN int = 0
+//@   ghost var gen Tokens = havoc
+//@   ghost var takenAt []uint32 = havoc
+//@   ghost var taken0 []uint32 = havoc
+//@   ghost var my0 Tokens = havoc
+//@   at after@ring.Desc.TokensFor: my0 := $r0
+//@   at after@ring.Desc.TokensFor: taken0 := $r1
+//@   at after@ring.TokenGenerator.GenerateTokens: genN := genN + 1
+//@   at after@ring.TokenGenerator.GenerateTokens: gen := $r0
+//@   at before@ring.TokenGenerator.GenerateTokens: takenAt := takenTokens
+//@   at before@sort.Sort: assert once: genN == 1
+//@   at before@sort.Sort: assert version: same(takenAt, taken0)
+//@   at before@sort.Sort: assert chosen: same(newTokens, gen)
+//@   at before@sort.Sort: assert appended: len(myTokens) == len(my0) + len(gen)
+//@   at before@sort.Sort: assert untaken: forall j int :: len(my0) <= j && j < len(myTokens) ==> !hasTok(taken0, myTokens[j])
 //@   ensures  frame: othersUntouched(ringDesc.Ingesters, in, i.ID)
 //@   ensures  own: r2 == nil && r0 != nil && in(i.ID, ringDesc.Ingesters) && ringDesc.Ingesters[i.ID].State == targetState && i.state == targetState && i.ID == old(i).ID
 //@   ensures  tokens: same(ringDesc.Ingesters[i.ID].Tokens, i.tokens)
